@@ -77,6 +77,10 @@ func symbolPacket(sym string, seq uint64) gocbcore.SimPacket {
 		return docPacket("deletion", seq, helpers.Prefix+"y", "after", 0)
 	case "Mpart":
 		return docPacket("mutation", seq, "_connector:cbg", "after", 0)
+	case "Minfix": // an application key that merely CONTAINS a reserved prefix
+		return docPacket("mutation", seq, "order"+helpers.TxnPrefix+fmt.Sprint(seq), "after", 0)
+	case "Dinfix":
+		return docPacket("deletion", seq, "x"+helpers.Prefix+"y", "after", 0)
 	case "Mempty":
 		return docPacket("mutation", seq, "", "after", 0)
 	case "Mbin":
@@ -598,6 +602,19 @@ func (pp *pipe) crashRestart() {
 	pp.start()
 	// C02/C01: the stream request of every vBucket names exactly the durable checkpoint
 	seen := map[uint16]bool{}
+	if pp.p.Latest && !hadStored[0] && !hadStored[1] {
+		// documented semantics of autoReset=latest: no checkpoint for ANY assigned vBucket -> every vBucket
+		// starts at its current high seqno (whatever was delivered before is skipped by configuration)
+		for _, r := range pp.c.Requests[nreq:] {
+			if r.Kind == "openstream" && r.Args[2] != pp.c.Vb[r.Vb].High {
+				pp.fail("restart with autoReset=latest and no checkpoint at all: vb%d requested from %d, its high seqno is %d", r.Vb, r.Args[2], pp.c.Vb[r.Vb].High)
+			}
+		}
+		for vb := uint16(0); vb < 2; vb++ {
+			pp.resume[vb] = pp.c.Vb[vb].High
+		}
+		return
+	}
 	for _, r := range pp.c.Requests[nreq:] {
 		if r.Kind != "openstream" {
 			continue
@@ -689,17 +706,38 @@ func pipeMain(p PipeParams) {
 			d := u[len(u)-1]
 			pp.hist = append(pp.hist, fmt.Sprintf("ack(vb%d,%d)", d.Vb, d.Seq))
 			pp.ack(d)
-		case op == "commit":
+		case op == "commit" || op == "ctxcommit":
+			var viaCtx *Delivered
+			if op == "ctxcommit" {
+				// the consumer calls Commit() on the context of an event it has NOT acknowledged (e.g. while
+				// still processing it): this saves what was acknowledged so far and must not settle that event
+				if un := pp.unacked(-1); len(un) > 0 {
+					viaCtx = un[len(un)-1]
+				} else if n := len(pp.e.Cons.Events); n > 0 {
+					viaCtx = pp.e.Cons.Events[n-1]
+				} else {
+					pp.hist = append(pp.hist, "ctxcommit-none")
+					continue
+				}
+			}
 			pp.failSave = false
 			if p.Faults {
 				pp.failSave = vrt.Choose(2, true, "save-outcome") == 1
 			}
-			pp.hist = append(pp.hist, fmt.Sprintf("commit(fail=%v)", pp.failSave))
+			if viaCtx != nil {
+				pp.hist = append(pp.hist, fmt.Sprintf("ctx(vb%d:%d).Commit(fail=%v)", viaCtx.Vb, viaCtx.Seq, pp.failSave))
+			} else {
+				pp.hist = append(pp.hist, fmt.Sprintf("commit(fail=%v)", pp.failSave))
+			}
 			before := map[uint16]uint64{}
 			for vb := uint16(0); vb < 2; vb++ {
 				before[vb] = pp.oblig[vb]
 			}
-			pp.e.Stream.Save()
+			if viaCtx != nil {
+				viaCtx.Ctx.Commit()
+			} else {
+				pp.e.Stream.Save()
+			}
 			if verbose {
 				for _, sc := range pp.e.RecMeta.Saves {
 					vrt.Logf("save state=%v dirty=%v err=%v", sc.State, sc.Dirty, sc.Err)
